@@ -1,9 +1,11 @@
 (* MiniSlot.v — the little language into which translators/slots.py translates, on every run, the body of the loop over
    cls.used_by_vp in compiler<Policy>::assign_lattice_slots (detail/compiler.hpp): how the slot of one (method, parameter) is
    chosen for a class in a multiple-inheritance lattice and where it is then marked used / reserved — and its interpreter over
-   the slot state of Model/Compile.v.  The wrapper (the mark guard, the recursion over direct_derived), assign_tree_slots and
-   assign_slots are matched on the AST by the translator.  Proofs/SlotSource.v proves that running the translated body is
-   Model.Compile.lattice_assign.  No proofs in this file. *)
+   the slot state of Model/Compile.v.  The functions around that body - assign_tree_slots, the rest of assign_lattice_slots (the
+   mark guard, the recursion over direct_derived) and assign_slots - are lowered statement by statement into a second language
+   (astmt, below), whose interpreter calls the two recursive functions on fuel.  Proofs/SlotSource.v proves that running the
+   translated body is Model.Compile.lattice_assign and that running the translated assign_slots, with the translated functions
+   below it, is Model.Compile.assign_slots.  No proofs in this file. *)
 From Coq Require Import List NArith Bool Arith.
 From Y2 Require Import Model.Registry Model.Compile.
 Import ListNotations.
@@ -120,3 +122,186 @@ Section Interp.
     | None => None
     end.
 End Interp.
+
+(* ------------------------------------------------------------------ the functions around that body (fourth session) *)
+(* assign_tree_slots, assign_lattice_slots (the mark guard and the recursion around the body above) and assign_slots itself,
+   statement by statement.  `class_mark` / `cls.mark` are read as Model.Compile reads them: a class is marked when its mark
+   equals the counter, and `++class_mark` at the start of assign_slots unmarks every class.  Bit sets are N, as above. *)
+Inductive astmt :=
+| ASkip
+| ASeq (a b : astmt)
+| ANextFromBase                      (* auto next_slot = base_slot; *)
+| AForUsedBy (body : astmt)          (* for (const auto& mp : cls.used_by_vp) *)
+| AStoreNext                         (* mp.method->slots[mp.param] = next_slot *)
+| AIncNext                           (* ++next_slot      (`= next_slot++` is AStoreNext then AIncNext) *)
+| AFirstSlotZero                     (* cls.first_slot = 0; *)
+| AVtblResizeNext                    (* cls.vtbl.resize(next_slot); *)
+| AForDerived (body : astmt)         (* for (auto pd : cls.direct_derived) *)
+| ARecurseTree                       (* assign_tree_slots( *pd, next_slot); *)
+| AReturnIfMarked                    (* if (cls.mark == class_mark) return; *)
+| AMark                              (* cls.mark = class_mark; *)
+| AIfUsedByNonEmpty (body : astmt)   (* if (!cls.used_by_vp.empty()) *)
+| ALatticeBody                       (* the body translated above, for the (method, parameter) of the loop *)
+| ARecurseLattice                    (* assign_lattice_slots( *pd); *)
+| ANewClassMark                      (* ++class_mark; *)
+| AForClasses (body : astmt)         (* for (auto& cls : classes) *)
+| AIfRoot (body : astmt)             (* if (cls.direct_bases.size() == 0) *)
+| AIfTree (a b : astmt)              (* if (no covariant class has more than one direct base) a else b *)
+| ACallTree0                         (* assign_tree_slots(cls, 0); *)
+| ACallLattice                       (* assign_lattice_slots(cls); *)
+| AIfUsedNonEmpty (body : astmt)     (* if (cls.used_slots.empty()) continue;  body *)
+| ASetFirstFromUsed                  (* first_slot = used_slots.find_first(); cls.first_slot = npos ? 0 : first_slot; *)
+| AVtblResizeUsed.                   (* cls.vtbl.resize(cls.used_slots.size() - cls.first_slot); *)
+
+Record a_cx := mk_acx { ac_cls : option nat; ac_base : option nat; ac_mp : option (nat * nat); ac_pd : option nat }.
+Record a_st := mk_ast { as_st : sstate; as_next : option nat }.
+
+Definition upd_first (st : sstate) (c v : nat) : sstate :=
+  mk_ss (s_slots st) (s_used st) (s_resv st) (s_mark st) (set_nth c (s_first st) v) (s_vlen st) (s_fuel_ok st).
+Definition upd_vlen (st : sstate) (c v : nat) : sstate :=
+  mk_ss (s_slots st) (s_used st) (s_resv st) (s_mark st) (s_first st) (set_nth c (s_vlen st) v) (s_fuel_ok st).
+Definition upd_mark (st : sstate) (m : list bool) : sstate :=
+  mk_ss (s_slots st) (s_used st) (s_resv st) m (s_first st) (s_vlen st) (s_fuel_ok st).
+Definition out_of_fuel (st : sstate) : sstate :=
+  mk_ss (s_slots st) (s_used st) (s_resv st) (s_mark st) (s_first st) (s_vlen st) false.
+
+Section AInterp.
+  Variables (L : lattice) (ms : list cmeth) (lbody : lstmt).
+  Variable rec_tree : nat -> nat -> sstate -> option sstate.      (* assign_tree_slots, one level down *)
+  Variable rec_lat : nat -> sstate -> option sstate.              (* assign_lattice_slots, one level down *)
+
+  Section ALoop.
+    Context {A : Type}.
+    Variable step : A -> a_st -> option (a_st * bool).
+    Fixpoint afor (xs : list A) (s : a_st) : option (a_st * bool) :=
+      match xs with
+      | [] => Some (s, false)
+      | a :: r => match step a s with
+                  | Some (s', false) => afor r s'
+                  | other => other                      (* a return inside a loop leaves the function *)
+                  end
+      end.
+  End ALoop.
+
+  Fixpoint aexec (p : astmt) (x : a_cx) (s : a_st) : option (a_st * bool) :=
+    match p with
+    | ASkip => Some (s, false)
+    | ASeq a b => match aexec a x s with Some (s', false) => aexec b x s' | other => other end
+    | ANextFromBase => match ac_base x with Some b => Some (mk_ast (as_st s) (Some b), false) | None => None end
+    | AForUsedBy body =>
+        match ac_cls x with
+        | Some c => afor (fun mp s' => aexec body (mk_acx (ac_cls x) (ac_base x) (Some mp) (ac_pd x)) s') (used_by_vp ms c) s
+        | None => None
+        end
+    | AStoreNext =>
+        match ac_mp x, as_next s with
+        | Some mp, Some nx =>
+            let st := as_st s in
+            Some (mk_ast (mk_ss (set_slot st mp nx) (s_used st) (s_resv st) (s_mark st) (s_first st) (s_vlen st) (s_fuel_ok st)) (as_next s), false)
+        | _, _ => None
+        end
+    | AIncNext => match as_next s with Some nx => Some (mk_ast (as_st s) (Some (S nx)), false) | None => None end
+    | AFirstSlotZero => match ac_cls x with Some c => Some (mk_ast (upd_first (as_st s) c 0) (as_next s), false) | None => None end
+    | AVtblResizeNext => match ac_cls x, as_next s with
+                         | Some c, Some nx => Some (mk_ast (upd_vlen (as_st s) c nx) (as_next s), false)
+                         | _, _ => None
+                         end
+    | AForDerived body =>
+        match ac_cls x with
+        | Some c => afor (fun d s' => aexec body (mk_acx (ac_cls x) (ac_base x) (ac_mp x) (Some d)) s') (nth c (l_derived L) []) s
+        | None => None
+        end
+    | ARecurseTree => match ac_pd x, as_next s with
+                      | Some d, Some nx => match rec_tree d nx (as_st s) with Some st' => Some (mk_ast st' (as_next s), false) | None => None end
+                      | _, _ => None
+                      end
+    | AReturnIfMarked => match ac_cls x with
+                         | Some c => Some (s, nth c (s_mark (as_st s)) false)
+                         | None => None
+                         end
+    | AMark => match ac_cls x with
+               | Some c => Some (mk_ast (upd_mark (as_st s) (set_nth c (s_mark (as_st s)) true)) (as_next s), false)
+               | None => None
+               end
+    | AIfUsedByNonEmpty body => match ac_cls x with
+                                | Some c => match used_by_vp ms c with [] => Some (s, false) | _ :: _ => aexec body x s end
+                                | None => None
+                                end
+    | ALatticeBody => match ac_cls x, ac_mp x with
+                      | Some c, Some mp => match run_lattice_assign L c mp lbody (as_st s) with
+                                           | Some st' => Some (mk_ast st' (as_next s), false)
+                                           | None => None
+                                           end
+                      | _, _ => None
+                      end
+    | ARecurseLattice => match ac_pd x with
+                         | Some d => match rec_lat d (as_st s) with Some st' => Some (mk_ast st' (as_next s), false) | None => None end
+                         | None => None
+                         end
+    | ANewClassMark => Some (mk_ast (upd_mark (as_st s) (map (fun _ => false) (s_mark (as_st s)))) (as_next s), false)
+    | AForClasses body =>
+        afor (fun c s' => aexec body (mk_acx (Some c) None None None) s') (seq 0 (length (l_keys L))) s
+    | AIfRoot body => match ac_cls x with
+                      | Some c => match nth c (l_direct L) [] with [] => aexec body x s | _ :: _ => Some (s, false) end
+                      | None => None
+                      end
+    | AIfTree a b => match ac_cls x with
+                     | Some c => if is_tree_root L c then aexec a x s else aexec b x s
+                     | None => None
+                     end
+    | ACallTree0 => match ac_cls x with
+                    | Some c => match rec_tree c 0 (as_st s) with Some st' => Some (mk_ast st' (as_next s), false) | None => None end
+                    | None => None
+                    end
+    | ACallLattice => match ac_cls x with
+                      | Some c => match rec_lat c (as_st s) with Some st' => Some (mk_ast st' (as_next s), false) | None => None end
+                      | None => None
+                      end
+    | AIfUsedNonEmpty body => match ac_cls x with
+                              | Some c => if N.eqb (nth c (s_used (as_st s)) 0%N) 0 then Some (s, false) else aexec body x s
+                              | None => None
+                              end
+    | ASetFirstFromUsed => match ac_cls x with
+                           | Some c => Some (mk_ast (upd_first (as_st s) c (first_set (nth c (s_used (as_st s)) 0%N))) (as_next s), false)
+                           | None => None
+                           end
+    | AVtblResizeUsed => match ac_cls x with
+                         | Some c => let st := as_st s in
+                                     Some (mk_ast (upd_vlen st c (N.size_nat (nth c (s_used st) 0%N) - nth c (s_first st) 0)) (as_next s), false)
+                         | None => None
+                         end
+    end.
+End AInterp.
+
+Definition no_tree : nat -> nat -> sstate -> option sstate := fun _ _ _ => None.
+Definition no_lat : nat -> sstate -> option sstate := fun _ _ => None.
+
+(* the two recursive functions, on the model's fuel (the depth of the calls) *)
+Fixpoint tree_fun (fuel : nat) (L : lattice) (ms : list cmeth) (body : astmt) (c base : nat) (st : sstate) : option sstate :=
+  match fuel with
+  | 0 => Some (out_of_fuel st)
+  | S f => match aexec L ms LSkip (tree_fun f L ms body) no_lat body (mk_acx (Some c) (Some base) None None) (mk_ast st None) with
+           | Some (s, _) => Some (as_st s)
+           | None => None
+           end
+  end.
+
+Fixpoint lat_fun (fuel : nat) (L : lattice) (ms : list cmeth) (lbody : lstmt) (body : astmt) (c : nat) (st : sstate) : option sstate :=
+  match fuel with
+  | 0 => Some (out_of_fuel st)
+  | S f => match aexec L ms lbody no_tree (lat_fun f L ms lbody body) body (mk_acx (Some c) None None None) (mk_ast st None) with
+           | Some (s, _) => Some (as_st s)
+           | None => None
+           end
+  end.
+
+Definition slots_start (L : lattice) (ms : list cmeth) : sstate :=
+  let n := length (l_keys L) in
+  mk_ss (map (fun m => repeat 0 (length (cm_vp m))) ms) (repeat 0%N n) (repeat 0%N n) (repeat false n) (repeat 0 n) (repeat 0 n) true.
+
+Definition run_assign_slots (L : lattice) (ms : list cmeth) (lbody : lstmt) (tree lat main : astmt) : option sstate :=
+  let n := length (l_keys L) in
+  match aexec L ms lbody (tree_fun (S n) L ms tree) (lat_fun (S n) L ms lbody lat) main (mk_acx None None None None) (mk_ast (slots_start L ms) None) with
+  | Some (s, _) => Some (as_st s)
+  | None => None
+  end.
